@@ -306,8 +306,12 @@ where
             last_index_covered_by_request.min(raft_log.last_entry_id()),
             request.leader_commit_index,
         ) {
-            debug!("new commit index received: {:?}", new_commit_index);
-            commit_index_update = Some(new_commit_index);
+            // the commit index never moves backwards: a re-sent request inside the already committed
+            // prefix covers less than what is committed
+            if new_commit_index > state_snapshot.commit_index {
+                debug!("new commit index received: {:?}", new_commit_index);
+                commit_index_update = Some(new_commit_index);
+            }
         }
 
         debug!(
